@@ -54,8 +54,15 @@ def as_expr(ip, v):
                 cur_s = tuple(ip.cur_states()) if hasattr(ip, 'cur_states') else ()
                 cur_l = {l.canon() for l in ip.guard()} if hasattr(ip, 'guard') else set()
                 if cur_s[:len(sts)] != sts or not set(lits) <= cur_l:
-                    raise AnalysisError('construct not understood: the combinational local %s, defined under a condition, is '
-                                        'read outside that condition' % v.args[0].name)
+                    # read outside its defining context: there the local is its definition where the context holds, 0 elsewhere
+                    ll = getattr(v.args[0], 'alias_ctx_lits', ())
+                    if v.args[0].w != 1 or any(l.kind != 'cond' or not isinstance(l.e, E) for l in ll):
+                        raise AnalysisError('construct not understood: the combinational local %s, defined under a condition, is '
+                                            'read outside that condition' % v.args[0].name)
+                    parts = [E('ongoing', (f_, s_), w=1) for f_, s_ in sts]
+                    parts += [l.e if l.pos else E('~', (l.e,), w=1) for l in ll]
+                    parts.append(v.args[0].alias)
+                    return parts[0] if len(parts) == 1 else E('&', tuple(parts), w=1)
             return v.args[0].alias
         return v
     if isinstance(v, bool):
